@@ -53,9 +53,32 @@ def near(rng, pool, lo, hi):
     return max(lo, min(hi, v))
 
 
+# boundaries of narrower integer widths: a table specialised to i8 / i16 / i32 / u32 must not clamp or wrap
+WIDTHS = [w for k in (7, 8, 15, 16, 31, 32) for w in (-(1 << k) - 1, -(1 << k), (1 << k) - 1, 1 << k)]
+
+
+def width_int_case(rng):
+    """all bounds inside one narrow width (edges included), probes on both sides of the edges and far beyond"""
+    k = rng.choice([7, 8, 15, 16, 31, 32])
+    lo, hi = -(1 << k), (1 << k) - 1
+    n = rng.choice([1, 2, 3, 5])
+    items = []
+    for _ in range(n):
+        a = rng.choice([lo, lo + 1, -1, 0, 1, hi - 1, hi, rng.randrange(lo, hi)])
+        b = rng.choice([a, hi, rng.randrange(a, hi + 1)])
+        items.append((a, b))
+    if rng.random() < 0.7:
+        items.append((rng.choice([0, hi - 1, hi]), hi))
+    if rng.random() < 0.5:
+        items.append((lo, rng.choice([lo, lo + 1, 0])))
+    probes = {lo - 1, lo, lo + 1, hi - 1, hi, hi + 1, hi + 2, 5 * (hi + 1), -5 * (hi + 1), I64_MIN, I64_MAX, 0,
+              (hi + 1) * 2 + 0, (1 << 32) + hi, -(1 << 32) + lo}
+    return case("in-int", items, [some(v) for v in sorted(probes)] + [None])
+
+
 def random_int_case(rng):
     n = rng.choice([0, 1, 2, 3, 5, 8, 13, 25, 40])
-    pool = list(DOM_INT) + [rng.randrange(I64_MIN, I64_MAX) for _ in range(3)]
+    pool = list(DOM_INT) + WIDTHS + [rng.randrange(I64_MIN, I64_MAX) for _ in range(3)]
     items = []
     for _ in range(n):
         a = near(rng, pool, I64_MIN, I64_MAX)
@@ -85,7 +108,9 @@ def random_ip_case(rng):
     n = rng.choice([0, 1, 2, 3, 5, 8, 13, 25, 40])
     items = []
     pool4 = list(DOM_V4) + [rng.randrange(0, V4_MAX) for _ in range(3)]
-    pool6 = list(DOM_V6) + [rng.randrange(0, V6_MAX) for _ in range(3)] + [0xFFFF00000000 + rng.randrange(0, V4_MAX)]
+    # IPv4-mapped IPv6 addresses (::ffff:a.b.c.d) of the IPv4 pool: a range between two of them is an IPv6 range
+    pool6 = (list(DOM_V6) + [rng.randrange(0, V6_MAX) for _ in range(3)] + [0xFFFF00000000 + rng.randrange(0, V4_MAX)]
+             + [0xFFFF00000000 + v for v in pool4])
     for _ in range(n):
         fam6 = rng.random() < 0.4
         bits, pool, mx = (128, pool6, V6_MAX) if fam6 else (32, pool4, V4_MAX)
@@ -112,13 +137,22 @@ def random_ip_case(rng):
         sl = sorted(s)
         rng.shuffle(sl)
         probes += [some((tag, v)) for v in sl[:14]]
-    # the same numeric value in the other family must never match
-    for it in items[:4]:
+    # the same numeric value in the other family must never match; neither must the IPv4 address an
+    # IPv4-mapped IPv6 item embeds, nor the mapped form of an IPv4 item
+    for it in items[:6]:
         if it[0] in ("r4", "c4"):
             probes.append(some(("v6", it[1])))
+            probes.append(some(("v6", 0xFFFF00000000 + it[1])))
         else:
             if it[1] <= V4_MAX:
                 probes.append(some(("v4", it[1])))
+            if 0xFFFF00000000 <= it[1] <= 0xFFFFFFFFFFFF:
+                probes.append(some(("v4", it[1] - 0xFFFF00000000)))
+                probes.append(some(("v6", it[1])))
+                if it[0] == "r6" and 0xFFFF00000000 <= it[2] <= 0xFFFFFFFFFFFF:
+                    mid = (it[1] + it[2]) // 2
+                    probes.append(some(("v6", mid)))
+                    probes.append(some(("v4", mid - 0xFFFF00000000)))
     return case("in-ip", items, probes + [None])
 
 
@@ -165,6 +199,7 @@ def gen(rng, tier):
     for _ in range(nr):
         out.append(random_int_case(rng))
         out.append(random_ip_case(rng))
+        out.append(width_int_case(rng))
     for _ in range(nr // 2):
         out.append(random_bytes_case(rng))
     return out
